@@ -247,7 +247,10 @@ def run_check(tier, seed, replay=None):
                 "upgrade:altair", "upgrade:bellatrix", "upgrade:capella", "upgrade:deneb",
                 # forks whose contexts are Clones of one context: one copy is stepped, the others are re-observed
                 "recheck-parent", "recheck-sibling", "fork-both-deposit-different-amounts-same-epoch",
-                "fork-one-deposits-other-rotates-first", "clone-eff-len-lt-cap", "clone-eff-len-eq-cap"]
+                "fork-one-deposits-other-rotates-first", "clone-eff-len-lt-cap", "clone-eff-len-eq-cap",
+                # new-validator deposits observed mid-epoch (before the next rotation), by amount class
+                "new-validator-amount-not-multiple-of-increment", "new-validator-amount-at-max", "new-validator-amount-above-max",
+                "new-validator-amount-below-one-increment", "topup-of-validator-deposited-in-same-epoch"]
         missing = [k for k in need if flags[k] == 0]
         for k in ("slot", "block", "genesis"):
             if steps[k] == 0:
@@ -283,6 +286,10 @@ def run_check(tier, seed, replay=None):
         "rechecks_of_unstepped_copies": {"parent": flags["recheck-parent"], "sibling": flags["recheck-sibling"]},
         "fork_scripts": {k: flags[k] for k in ("fork-both-deposit-different-amounts-same-epoch", "fork-one-deposits-other-rotates-first",
                                                 "clone-eff-len-lt-cap", "clone-eff-len-eq-cap")},
+        "new_validator_deposits_observed_before_next_rotation": {
+            k: flags[k] for k in ("new-validator-amount-not-multiple-of-increment", "new-validator-amount-at-max",
+                                  "new-validator-amount-above-max", "new-validator-amount-below-one-increment",
+                                  "topup-of-validator-deposited-in-same-epoch")},
         "reload_points": tot["reload_points"], "reload_comparisons": tot["peer_comparisons"], "branches": tot["branches"],
         "known_deviations_enabled": deviations, "deviations_used": dict(devs_total), "known_findings_seen": dict(known),
         "scenarios_stopped_early": stopped,
